@@ -101,7 +101,8 @@ def tlc_sessions(pid, module, cfg, timeout=900, workers=None, keep=None):
     """Model-check `module` under `cfg` (the invariants of the specification are checked on every
     state) and collect the sessions it printed (R = "sess").  Returns (stage, sessions)."""
     st = Stage()
-    r = common.run_tlc(pid, module, os.path.join(SPEC, cfg), timeout=timeout, workers=workers)
+    r = common.run_tlc(pid, module, os.path.join(SPEC, cfg), timeout=timeout, workers=workers,
+                       java_opts="-Xss1g" if module.startswith("MC_VM") else None)
     st.states = r["distinct"]
     st.transitions = r["generated"]
     st.notes[cfg] = {"tlc_wall_s": round(r["wall"], 1), "distinct": r["distinct"],
@@ -392,6 +393,201 @@ ASSUME_SESS = ["the harness renderer (AST -> source text) and the probe projecti
                "that domain are discarded (counted as out_of_model), never failed"]
 
 
+# ---- binding of BasicVM (the implementation-level model) to the code -------------------------------------------
+_CALLNAME = {"HEX$": "HEX", "OCT$": "OCT", "STR$": "STR", "STRING$": "STRING", "INKEY$": "INKEY"}
+_DEFT = {"I": "DEFINT", "S": "DEFSNG", "D": "DEFDBL", "$": "DEFSTR"}
+_LITRE = None
+
+
+def _rust_debug_upper(cps):
+    """what Opcode::Display shows for a string literal ({:?} then to_ascii_uppercase); None: not predictable here"""
+    out = []
+    for c in cps:
+        if c == 10:
+            out.append("\\N")
+        elif c == 34:
+            out.append('\\"')
+        elif c == 92:
+            out.append("\\\\")
+        elif 32 <= c < 127:
+            out.append(chr(c).upper())
+        else:
+            return None
+    return '"' + "".join(out) + '"'
+
+
+def _model_op(op):
+    from fractions import Fraction
+    o, a = op["o"], op["a"]
+    name = lambda nm: nm["id"] + nm["sfx"]
+    if o == "LIT":
+        t = a["t"]
+        if t == "I":
+            return ("LIT", "INTEGER", a["n"])
+        if t in ("S", "D"):
+            return ("LIT", "SINGLE" if t == "S" else "DOUBLE", Fraction(a["n"], 2 ** a["e"]) if a["x"] else None)
+        if t == "$":
+            return ("LIT", "STRING", _rust_debug_upper(a["s"]))
+        if t == "nm":
+            return ("LIT", "STRING", '"' + name(a["s"]).upper() + '"')
+        if t == "R":
+            return ("LIT", "RETURN", a["n"])
+        if t == "N":
+            return ("LIT", "NEXT", a["n"])
+    if o in ("PUSH", "POP", "PUSHARR", "POPARR", "DIMARR", "ERASEARR", "NEXT", "INPUT"):
+        return (o, name(a))
+    if o in ("DEF", "FN"):
+        return (o, a)
+    if o in ("IFNOT", "JUMP", "RESTORE"):
+        return (o, str(a))
+    if o == "DEFTYPE":
+        return (_DEFT[a],)
+    if o == "CALL":
+        return (_CALLNAME.get(a, a),)
+    return (o,)
+
+
+def _real_op(text):
+    import re
+    from fractions import Fraction
+    m = re.match(r"^([A-Z$]+)(?:\((.*)\))?$", text, re.S)
+    if not m:
+        return ("?", text)
+    nm, arg = m.group(1), m.group(2)
+    if arg is None:
+        return (nm,)
+    if nm == "PUSH":
+        lm = re.match(r"^(INTEGER|SINGLE|DOUBLE|STRING|RETURN|NEXT)\((.*)\)$", arg, re.S)
+        if lm:
+            ty, body = lm.group(1), lm.group(2)
+            if ty in ("INTEGER", "RETURN", "NEXT"):
+                return ("LIT", ty, int(body))
+            if ty in ("SINGLE", "DOUBLE"):
+                try:
+                    return ("LIT", ty, Fraction(float(body)))
+                except (ValueError, OverflowError):
+                    return ("LIT", ty, None)
+            return ("LIT", ty, body)
+    return (nm, arg)
+
+
+def _ops_equal(a, b):
+    if a[0] != b[0] or len(a) != len(b):
+        return False
+    if a[0] == "LIT":
+        return a[1] == b[1] and (a[2] is None or b[2] is None or a[2] == b[2])
+    return a == b
+
+
+def code_stage(pid, name, sessions, max_steps=300, timeout=3000):
+    """BasicVM against the code, whole sessions: every command of a session is delivered to the real interpreter and
+    executed one execute(1) at a time (interrupts after the session's `int_after` opcodes).  For every direct command
+    the opcodes the interpreter's compiler and linker emitted must be the opcodes BasicVM!Compile gives for the
+    commands as the interpreter's parser understood them; for every command (pc, stack depth, run state) after every
+    single execute(1) must be the model's.  A difference is not a violation of any property (another compilation
+    scheme may be just as right): it is reported as drift of the implementation-level model, which then no longer
+    transfers what TLC proved about it."""
+    st = Stage()
+    d = common.outdir(pid)
+    sp = os.path.join(d, name + ".code.sessions.ndjson")
+    with open(sp, "w") as f:
+        for s_ in sessions:
+            f.write(json.dumps(s_) + "\n")
+    cp = os.path.join(d, name + ".code.ndjson")
+    t0 = time.time()
+    common.run_bvh(["code", sp, cp, str(max_steps)])
+    twall = time.time() - t0
+    real = {}
+    for line in open(cp):
+        r_ = json.loads(line)
+        real[r_["id"]] = r_
+    usable = [r_ for r_ in real.values() if r_.get("ok")]
+    notes = {"sessions": len(sessions), "with_a_direct_command": len(usable), "drive_wall_s": round(twall, 1)}
+    if not usable:
+        st.notes[name] = notes
+        return st
+    r = common.run_tlc(pid, "MC_Code.tla", os.path.join(SPEC, "MC_Code.cfg"), timeout=timeout, env_extra={"CODE": cp},
+                       java_opts="-Xss1g", tag=name)
+    if not r["ok"]:
+        raise ToolError("TLC failed walking %s on the model: %s; see %s" % (name, r["error"] or r["violated"], r["out"]))
+    compared = ncmds = ndirect = witherrs = outside = ndrift = nops = nsteps = nints = partial_n = 0
+    drift = []
+    for line in open(r["cases"]):
+        mrec = json.loads(line)
+        if mrec.get("R") != "code":
+            continue
+        rrec = real[mrec["id"]]
+        compared += 1
+        diff = None
+        for j, it in enumerate(mrec["items"]):
+            rc = rrec["cmds"][j]
+            if it["k"] == "outside":
+                outside += 1
+                break
+            ncmds += 1
+            if it["k"] == "direct":
+                ndirect += 1
+                if it["errs"]:
+                    # with compile-time errors nothing runs and the layout of the rejected unit is immaterial
+                    witherrs += 1
+                else:
+                    mops = [_model_op(o) for o in it["ops"]]
+                    rops = [_real_op(t) for t in rc["ops"]]
+                    if len(mops) != len(rops):
+                        diff = "command %d: code length %d (model) / %d (interpreter)" % (j + 1, len(mops), len(rops))
+                    else:
+                        for i_, (x, y) in enumerate(zip(mops, rops)):
+                            if not _ops_equal(x, y):
+                                diff = "command %d, address %d: model %s, interpreter %s" % (j + 1, i_, x, rc["ops"][i_])
+                                break
+                    if diff is None and it["daddr"] != rc["daddr"]:
+                        diff = "command %d: direct code starts at %s (model) / %s (interpreter)" % (j + 1, it["daddr"], rc["daddr"])
+                    if diff is None and it["ndata"] != len(rc["data"]):
+                        diff = "command %d: DATA values %d (model) / %d (interpreter)" % (j + 1, it["ndata"], len(rc["data"]))
+                    if diff is None:
+                        nops += len(mops)
+            if diff is None and not (it["k"] == "direct" and it["errs"] and False):
+                mv = [list(x) for x in it["vm"]]
+                rv = rc["vm"]
+                # the model stops where it leaves its domain (a value it does not compute): compare up to there
+                cut = next((q for q, x in enumerate(mv) if x[2] == "oom"), None)
+                if cut is not None:
+                    mv = mv[:cut]
+                k = min(len(mv), len(rv))
+                bad = next((q for q in range(k) if mv[q] != rv[q]), None)
+                if bad is None and cut is None and len(mv) != len(rv):
+                    bad = k
+                if bad is not None:
+                    diff = "command %d, step %d: model %s, interpreter %s" % (
+                        j + 1, bad + 1, mv[bad] if bad < len(mv) else "-", rv[bad] if bad < len(rv) else "-")
+                else:
+                    nsteps += k
+                    if rc.get("intat", -1) >= 0:
+                        nints += 1
+                if cut is not None:
+                    partial_n += 1
+                    break
+            if diff is not None:
+                break
+        if diff is not None:
+            ndrift += 1
+            if len(drift) < 10:
+                drift.append({"session": mrec["id"], "difference": diff})
+    notes.update({"sessions_compared": compared, "commands_compared": ncmds, "direct_commands_(code_compared)": ndirect,
+                  "rejected_at_compile_time_(code_not_compared)": witherrs, "sessions_leaving_the_compiler_model": outside,
+                  "sessions_leaving_the_value_model": partial_n, "opcodes_compared": nops, "execute_steps_compared": nsteps,
+                  "interrupts_delivered": nints, "tlc_wall_s": round(r["wall"], 1), "sessions_with_drift": ndrift,
+                  "drift": drift})
+    st.notes[name] = notes
+    st.evaluations = compared
+    st.validated = compared - ndrift
+    st.transitions = nsteps
+    if drift:
+        print("NOTE %s/%s: the implementation-level model (BasicVM) differs from the code in %d of %d sessions (not a "
+              "violation; first: %s)" % (pid, name, ndrift, compared, drift[0]["difference"]))
+    return st
+
+
 def check_C01(tier, seed):
     t0 = time.time()
     quick = tier == "quick"
@@ -403,20 +599,47 @@ def check_C01(tier, seed):
     # the repository's own tests and the manual's examples, as text: the interpreter's parser translates each
     # line into the specification's AST, the abstract machine must reproduce every response
     import gentext
-    st4 = validate_sessions("C01", "textual", gentext.test_sessions() + gentext.doc_sessions(), timeout=3000)
-    return finish("C01", tier, seed, "model_checking", [st1, st2, st3, st4], t0,
+    text = gentext.test_sessions() + gentext.doc_sessions()
+    st4 = validate_sessions("C01", "textual", text, timeout=3000)
+    # the implementation-level model: refinement checked by TLC, bound to the code opcode by opcode
+    st5 = tlc_mc("C01", "MC_VM.tla", "MC_VM_%s.cfg" % tier, timeout=3000)
+    st6 = code_stage("C01", "vm-mc", sample(sess, 2500 if quick else 12000))
+    st7 = code_stage("C01", "vm-rnd", rnd)
+    st8 = code_stage("C01", "vm-text", text)
+    return finish("C01", tier, seed, "model_checking", [st1, st2, st3, st4, st5, st6, st7, st8], t0,
                   rule="every program of the bounded template grammar (one template per line) is run on the "
                        "abstract machine by TLC with its invariants checked at every step; each terminating "
                        "behaviour and each seeded random program (5-30 lines: loops left early, subroutines, "
                        "nested IF, ON, WHILE, TRON) is executed by the real interpreter and the recorded trace "
                        "(responses + state probe after every command) must be a behaviour of the specification; in addition "
                        "the lines entered by the repository's own tests and the examples of the manual (src/doc) are replayed "
-                       "as text sessions (the interpreter's parser supplies the AST) and validated the same way",
+                       "as text sessions (the interpreter's parser supplies the AST) and validated the same way."
+                       + VM_RULE % "every program of the same template grammar (each run also continued after STOP / END)",
                   assumptions=ASSUME_SESS)
 
 
+VM_RULE = (" Implementation level: TLC checks that BasicVM (the code generator, the linker with its symbol table, program "
+           "memory and the stack machine with its run states, transcribed from the source) refines the abstract machine on "
+           "%s -- the same responses and the same observable state at every prompt, only FOR / GOSUB frames on the stack "
+           "where a line starts, every linked branch inside the code; and the harness checks that the opcodes the "
+           "interpreter compiles and its (pc, stack depth, run state) after every single execute(1) are BasicVM's for the "
+           "sessions of this check (a difference is reported as drift of that model, never as a violation).")
+
+
+VM_CODE_RULE = (" Implementation level: the sessions of this check are also walked through BasicVM (the code generator, linker, "
+                "program memory and stack machine transcribed from the source; its refinement of the abstract machine is "
+                "model-checked in C01, C04, C09-C13, C17, C18, C20): the opcodes the interpreter compiles for every direct "
+                "command and its (pc, stack depth, run state) after every single execute(1) of every command must be BasicVM's "
+                "(a difference is reported as drift of that model, never as a violation).")
+
+
+def sample(sess, n):
+    step = max(1, len(sess) // n)
+    return sess[::step]
+
+
 def mc_sess_check(pid, tier, seed, module, rule, extra_sessions=None, keep=None, timeout=3000, chunk=None,
-                  assumptions=None, cfg=None, pre_stages=None):
+                  assumptions=None, cfg=None, pre_stages=None, vm_cfgs=None, vm_space=None):
     t0 = time.time()
     st1, sess = tlc_sessions(pid, module, cfg or "%s_%s.cfg" % (os.path.splitext(module)[0], tier),
                              timeout=timeout, keep=keep)
@@ -424,6 +647,11 @@ def mc_sess_check(pid, tier, seed, module, rule, extra_sessions=None, keep=None,
     if extra_sessions:
         for name, ss in extra_sessions:
             stages.append(validate_sessions(pid, name, ss, timeout=timeout))
+    if vm_cfgs is not None:
+        for vmod, vcfg in vm_cfgs:
+            stages.append(tlc_mc(pid, vmod, vcfg, timeout=timeout))
+        stages.append(code_stage(pid, "vm", sample(sess, 1500 if tier == "quick" else 6000), timeout=timeout))
+        rule = rule + (VM_RULE % (vm_space or "the program space of this check") if vm_cfgs else VM_CODE_RULE)
     return finish(pid, tier, seed, "model_checking", stages, t0, rule=rule,
                   assumptions=ASSUME_SESS + (assumptions or []))
 
@@ -434,7 +662,10 @@ def check_C04(tier, seed):
              "histories: a run stopped by STOP / END / an error inside a FOR inside a GOSUB, then insert, replace, "
              "delete, bare number of an absent line, DELETE hit and miss, NEW, direct statements, intermediate RUN, "
              "ending in RUN, RUN n, CONT, RETURN, NEXT, GOTO n; EditCancels and OnlyEditsEdit are checked as action "
-             "properties; every transition is a session executed by the real interpreter and validated")
+             "properties; every transition is a session executed by the real interpreter and validated",
+        vm_cfgs=[("MC_VM4.tla", "MC_VM4_%s.cfg" % tier)],
+        vm_space="the same edit histories without RENUM (GRefines; CacheCoherent: the compiled program is that of the "
+                 "listing unless the dirty flag is set)")
 
 
 def check_C06(tier, seed):
@@ -444,7 +675,8 @@ def check_C06(tier, seed):
              "A$(..)): assignments of each value type, boundary subscripts (0, 10, 11, -1, 2.5, wrong arity), DIM / "
              "ERASE, DEFINT/SNG/DBL/STR, SWAP of same and mixed types, CLEAR; VarsTyped, InBounds, SwapAtomic are "
              "checked on the specification; every transition is a session after each command of which the whole "
-             "variable store of the interpreter (probe) must equal the specified one")
+             "variable store of the interpreter (probe) must equal the specified one",
+        vm_cfgs=[])
 
 
 RULES = {
@@ -476,7 +708,9 @@ def prog_check(pid):
             # number formatting: values chosen by TLC, printed by the interpreter (shape, text, read-back, minimality)
             pre = [tlc_replay_stage("C11", "MC_C11F.tla", "MC_C11F_%s.cfg" % tier, timeout=3000)]
         return mc_sess_check(pid, tier, seed, "MC_Prog.tla", RULES[pid], cfg="MC_Prog_%s_%s.cfg" % (pid, tier),
-                             keep=lambda d: not d.get("oom"), pre_stages=pre)
+                             keep=lambda d: not d.get("oom"), pre_stages=pre,
+                             vm_cfgs=[("MC_VMP.tla", "MC_VMP_%s_%s.cfg" % (pid, tier))],
+                             vm_space="the same program space (both machines fed the same commands, compared after each)")
     return chk
 
 
@@ -486,13 +720,15 @@ def check_C12(tier, seed):
              "of the program state (variables, arrays, DEFtype, user functions, frames left by STOP / an error / an "
              "abandoned direct FOR / a direct GOSUB, the DATA pointer, the continuation; NEW followed by re-entry of "
              "a program that observes leaked state) and checks RunIsFresh, ClearIsInit, NewIsEmpty as action "
-             "properties; every transition is a session whose whole probe is compared after each command")
+             "properties; every transition is a session whose whole probe is compared after each command",
+        vm_cfgs=[("MC_VM12.tla", "MC_VM12_%s.cfg" % tier)], vm_space="the same session prefixes")
 
 
 def tlc_mc(pid, module, cfg, timeout=1800, workers=None):
     """a pure model-checking stage (properties of the specification itself)"""
     st = Stage()
-    r = common.run_tlc(pid, module, os.path.join(SPEC, cfg), timeout=timeout, workers=workers)
+    r = common.run_tlc(pid, module, os.path.join(SPEC, cfg), timeout=timeout, workers=workers,
+                       java_opts="-Xss1g" if module.startswith("MC_VM") else None)
     st.states = r["distinct"]
     st.transitions = r["generated"]
     st.notes[cfg] = {"tlc_wall_s": round(r["wall"], 1), "distinct": r["distinct"], "generated": r["generated"]}
@@ -510,6 +746,9 @@ def check_C13(tier, seed):
     t0 = time.time()
     quick = tier == "quick"
     st0 = tlc_mc("C13", "MC_C13.tla", "MC_C13_%s.cfg" % tier, timeout=3000)
+    # slicing at the level of the implementation model: an interrupt at every opcode boundary of every program of the
+    # space, then CONT: same final store, frames, continuability as the uninterrupted manual-level run
+    stv = tlc_mc("C13", "MC_VM.tla", "MC_VM_intr_%s.cfg" % tier, timeout=7000)
     st1, sess = tlc_sessions("C13", "MC_C01.tla", "MC_C01_quick.cfg", timeout=3000,
                              keep=lambda d: not d.get("oom"))
     stride = 40 if quick else 4
@@ -522,6 +761,9 @@ def check_C13(tier, seed):
                       "inspect": A.direct(A.pr(A.var("A"), ";")) if i % 2 == 0 else None}
         sweeps.append(d)
     st2 = validate_sessions("C13", "sweep", sweeps, timeout=3000, exhaustive=True)
+    # the same sweeps walked through BasicVM: the interrupt is delivered after exactly the same number of opcodes
+    # and (pc, stack depth, run state) must agree after every execute(1), through BREAK, the inspection and CONT
+    stc = code_stage("C13", "vm-sweep", sweeps[:: (1 if quick else 3)], max_steps=400)
     # seeded random programs: every interruption point (bounded), with inspection
     rnd = gen_sessions(seed, 25 if quick else 300, "C13r", err_rate=0.0, layout=False)
     rs = []
@@ -569,8 +811,13 @@ def check_C13(tier, seed):
             d["quantum"] = q
             qs.append(d)
     st4 = validate_sessions("C13", "quantum", qs, timeout=3000)
-    return finish("C13", tier, seed, "model_checking", [st0, st1, st2, st3, st5, st4], t0,
-                  rule="(1) TLC checks on the specification that, for every program of the bounded grammar, every placement "
+    return finish("C13", tier, seed, "model_checking", [st0, stv, st1, st2, stc, st3, st5, st4], t0,
+                  rule="(0) TLC checks on BasicVM, the implementation-level model (bound to the code opcode by opcode in C01), "
+                       "that an interrupt at every opcode boundary of every program of the space followed by CONT ends in the "
+                       "store, frames and continuability of the uninterrupted manual-level run (SliceInvariant), and the "
+                       "interrupt sweeps below are also walked through BasicVM step by step (stage vm-sweep: drift, if any, is a "
+                       "note, not a violation); "
+                       "(1) TLC checks on the specification that, for every program of the bounded grammar, every placement "
                        "of up to MaxInts interrupts (each optionally followed by an inspecting direct statement) and every "
                        "STOP, continued by CONT, yields the output and store of the uninterrupted reference run; (2) on the "
                        "code, for each sampled program the uninterrupted run is single-stepped to count its N opcodes and "
@@ -616,7 +863,7 @@ def check_C15(tier, seed):
              "bare with endpoints on, between, before and after existing lines, inverted ranges and numbers above 65529; "
              "ListExact, DeleteExact, LineExact are action properties; every transition is a session ending in a full "
              "LIST whose text must equal the specified listing; plus seeded random long histories over 0..65529",
-        extra_sessions=[("rnd", extra)])
+        extra_sessions=[("rnd", extra)], vm_cfgs=[])
 
 
 def check_C20(tier, seed):
@@ -626,7 +873,10 @@ def check_C20(tier, seed):
              "scope is crossed, the statement list typed as a direct line with 0 or 3 unrelated program lines in memory) "
              "TLC checks LayoutInvariant on the specification (responses of T(L) equal those of L up to reported line "
              "numbers, same final store); both layouts are executed by the real interpreter and validated",
-        keep=lambda d: not d.get("oom"))
+        keep=lambda d: not d.get("oom"),
+        vm_cfgs=[("MC_VM.tla", "MC_VM_quick2.cfg" if tier == "quick" else "MC_VM_quick.cfg")],
+        vm_space="the control-flow template grammar (Linked: every branch operand is an address inside the code, resolved "
+                 "through the line-number symbols)")
 
 
 def check_C07(tier, seed):
@@ -690,9 +940,12 @@ def check_C18(tier, seed):
     t0 = time.time()
     quick = tier == "quick"
     st0 = tlc_mc("C18", "MC_C01.tla", "MC_C18_%s.cfg" % tier, timeout=3000)
+    # the stack discipline of the compiled code, on the implementation-level model: FramesAtLineStart, and the
+    # stack depth equal to the specified frames at every prompt (part of Refines)
+    stv = tlc_mc("C18", "MC_VM.tla", "MC_VM_quick2.cfg" if quick else "MC_VM_quick.cfg", timeout=3000)
     leak = gen18.leak_sessions(25 if quick else 400)
     st1 = validate_sessions("C18", "leak", leak, timeout=3000, exhaustive=True)
-    stages = [st0, st1]
+    stages = [st0, stv, st1, code_stage("C18", "vm", leak, max_steps=600)]
     if not quick:
         stages.append(validate_sessions("C18", "leaklong", gen18.leak_sessions(3000, prefix="C18x")[::7], timeout=6000))
     lim = gen18.limit_sessions()
@@ -704,7 +957,8 @@ def check_C18(tier, seed):
                        "and in a subroutine, then STOP exposes the interpreter's stack: the probe must show exactly the "
                        "specified frames, zero stray stack values and no slot for variables set back to 0 / \"\"; (3) each "
                        "pool (GOSUB recursion, abandoned FOR frames, FN recursion, ON..GOSUB recursion) is driven past the "
-                       "real limit of 65535: OUT OF MEMORY is specified and the session must remain usable",
+                       "real limit of 65535: OUT OF MEMORY is specified and the session must remain usable."
+                       + VM_RULE % "the control-flow template grammar",
                   assumptions=ASSUME_SESS + ["the variable, DATA and code pools are driven to their limit only in the thorough tier"])
 
 
@@ -736,7 +990,7 @@ def check_C19(tier, seed):
              "PRINT:GOTO) on the specification; each session (RUN, LIST with underlines, direct statements, every way of "
              "entering the program) is executed by the real interpreter: codes, lines, character ranges and underline "
              "ranges must equal the specified ones",
-        keep=lambda d: not d.get("oom"))
+        keep=lambda d: not d.get("oom"), vm_cfgs=[])
 
 
 def lex_mutations(seed, n):
@@ -987,14 +1241,16 @@ def check_C03(tier, seed):
     lines = [l for l in subprocess.run([common.BVH, "render", sp], stdout=subprocess.PIPE, text=True, check=True).stdout.splitlines() if l.strip()]
     muts = ["".join(map(chr, c["x"])) for c in lex_mutations(seed + 5, 300 if quick else 5000)]
     st3 = shell_stage("C03", "soup", gen03.soup_sessions(seed, 150 if quick else 3000, lines + muts))
-    return finish("C03", tier, seed, "model_checking", [st0, st1, st2, st3], t0,
+    st4 = shell_stage("C03", "reply", gen03.reply_sessions(2 if quick else 4))
+    return finish("C03", tier, seed, "model_checking", [st0, st1, st2, st3, st4], t0,
                   rule="(1) TLC checks ProtocolSafe, CacheCoherent and the liveness property Converges (after one interrupt and no "
                        "further input the prompt is reached, under weak fairness of execute) on RuntimeShell, the "
                        "implementation-shaped model of the run states and of the terminal's calling protocol; (2) on the code: "
                        "seeded sequences over a menu of lines, direct statements, replies, interrupts, listing snapshots kept "
                        "alive across edits, LOAD / RUN / SAVE requests (every run state reached), every string up to the bound "
                        "over the lexical alphabet entered as a line, byte / token soup up to 4096 bytes and damaged programs run "
-                       "with interrupts and replies; every API call is recorded with its event and a state probe and the call "
+                       "with interrupts and replies, every INPUT form with every reply up to the bound over the reply alphabet "
+                       "(quote, comma, blank, digit, letter, sign, point, ampersand, a non-ASCII letter); every API call is recorded with its event and a state probe and the call "
                        "trace must be a behaviour of RuntimeShell: a panic (caught) or a call that does not return within 3 s "
                        "has no counterpart and is reported with the input history",
                   assumptions=["the content of lines is opaque to the shell model (classified as long / empty / numbered / bare / "
